@@ -45,6 +45,18 @@ CHECKS = {
  "C19": ("override/blocking closure over the parsed source of the installed networkx (MRO-resolved self-call graph + taint effects); decorator body analysis; freeze coverage",
          "Every public callable of the MRO that can change adjacency/node structure through self is a timestamped owner or lands on an always-raising override; required-blocked names resolve to always-raising definitions; base-class calls go to the direct base and reset both indexes; freeze shadows every mutator not blocked for all graphs. Pinned deviations (freeze vs add_interaction; update(nodes=)) are known findings.",
          "3.5, 4/C19"),
+ "C12": ("abstract interpretation of temporal_dag's window construction over all orderings; shape rules on the hop pipeline",
+         "Narrow: the ids expanded are exactly those in [start, end] (defaults first/last), in ascending order; hop times are the snapshot at which neighbours were asked; equal-time / reversal filters, non-empty, keying and de-duplication are present; nothing is returned when u is absent at start. Chaining/presence/waiting over runtime graph data are NOT decided.",
+         "4/C12"),
+ "C14": ("abstract interpretation of annotate_paths on generic paths over all orderings (ties) and input permutations",
+         "The five answers equal the argmin sets for every ordering of hop counts, durations and arrival times of three generic paths, in every input order (2197 order types x 6); zero-valued minima covered when the code tests for truth.",
+         "3.6 S2, 4/C14"),
+ "C15": ("abstract interpretation of temporal_dag's prefix (defaults, guard, id window; bisect/slices as rank arithmetic); shape rules on the expansion loop",
+         "ValueError exactly for windows not inside [first id, last id] or with start > end; empty DAG without snapshots; the loop visits exactly the ids of the window, ascending; neighbours asked at / occurrences stamped with the loop's id; exact occurrence matching; expiry by neighbors(.., tid). Source/target exactness and acyclicity over graph contents are NOT decided.",
+         "3.2, 4/C15"),
+ "C17": ("sibling cross-check of the four inter-event functions; event index roles; denominator resolution; interval-length typing",
+         "Narrow: siblings agree up to the node filter (source / target / either); gaps = time - previous time over the stream with the previous event advanced; coverage / node_contribution / edge_contribution divide by the number of snapshot ids; closed-interval length is end - start + 1. Numerical definitions are NOT decided.",
+         "4/C17"),
 }
 NA = [
  ("C13", "completeness of a data-dependent graph search: no shape-of-the-code necessary condition beyond what C12/C15 decide (DESIGN.md section 5)"),
